@@ -19,3 +19,51 @@ LEAVES = [
          target='dof', nth=0, count=1,
          params={'matrix_shape_0': 'Nat', 'len_values': 'Nat'}, ret='Nat'),
 ]
+
+# ---- round 2: the scalar arithmetic of the two shrinkage estimators and of 'full', entry-wise.
+# Array-valued names of the source (s_sum, s, eye, mask, ...) stand for one entry of the array;
+# calls that build / reduce arrays are opaque parameters (their value is computed by the model).
+_A = 'A'
+_EYE = 'np.eye(s.shape[0])'
+LEAVES += [
+    dict(name='fullNorm', file='data/noise.py', func='_covariance_full', kind='func',
+         params={'xtx': _A, 'dof': _A}, ret=_A,
+         opaque={"np.einsum('ij, ik-> jk', matrix, matrix, optimize=True)": 'xtx'}),
+    # Ledoit-Wolf
+    dict(name='lwS', file='data/noise.py', func='_covariance_eye', kind='assign', target='s', nth=0,
+         count=1, params={'s_sum': _A, 'matrix_shape_0': _A}, ret=_A),
+    dict(name='lwB2', file='data/noise.py', func='_covariance_eye', kind='assign', target='b2', nth=0,
+         count=2, params={'total': _A, 'matrix_shape_0': _A}, ret=_A,
+         opaque={'np.sum(s2_sum / matrix.shape[0] - s * s)': 'total'}),
+    dict(name='lwM', file='data/noise.py', func='_covariance_eye', kind='assign', target='m', nth=0,
+         count=1, params={'trace': _A, 's_shape_0': _A}, ret=_A,
+         opaque={'np.sum(np.diag(s))': 'trace'}),
+    dict(name='lwB2min', file='data/noise.py', func='_covariance_eye', kind='assign', target='b2', nth=1,
+         count=2, params={'d2': _A, 'b2': _A}, ret=_A),
+    dict(name='lwCombine', file='data/noise.py', func='_covariance_eye', kind='assign',
+         target='s_shrink', nth=0, count=3,
+         params={'b2': _A, 'd2': _A, 'm': _A, 'eye': _A, 's': _A}, ret=_A, opaque={_EYE: 'eye'}),
+    dict(name='lwRescale', file='data/noise.py', func='_covariance_eye', kind='assign',
+         target='s_shrink', nth=2, count=3,
+         params={'s_shrink': _A, 'matrix_shape_0': _A, 'dof': _A}, ret=_A),
+    # Schaefer-Strimmer
+    dict(name='ssS', file='data/noise.py', func='_covariance_diag', kind='assign', target='s', nth=0,
+         count=1, params={'s_sum': _A, 'dof': _A}, ret=_A),
+    dict(name='ssSMean', file='data/noise.py', func='_covariance_diag', kind='assign', target='s_mean',
+         nth=0, count=1, params={'s_sum': _A, 'std_col': _A, 'std_row': _A, 'matrix_shape_0': _A}, ret=_A,
+         opaque={'np.expand_dims(std, 0)': 'std_col', 'np.expand_dims(std, 1)': 'std_row'}),
+    dict(name='ssS2Mean', file='data/noise.py', func='_covariance_diag', kind='assign', target='s2_mean',
+         nth=0, count=1, params={'s2_sum': _A, 'var_col': _A, 'var_row': _A, 'matrix_shape_0': _A}, ret=_A,
+         opaque={'np.expand_dims(var, 0)': 'var_col', 'np.expand_dims(var, 1)': 'var_row'}),
+    dict(name='ssVarHat', file='data/noise.py', func='_covariance_diag', kind='assign', target='var_hat',
+         nth=0, count=1, params={'matrix_shape_0': _A, 'dof': _A, 's2_mean': _A, 's_mean': _A}, ret=_A),
+    dict(name='ssLambRaw', file='data/noise.py', func='_covariance_diag', kind='assign', target='lamb',
+         nth=0, count=3, params={'num': _A, 'denom': _A}, ret=_A,
+         opaque={'np.sum(var_hat[mask])': 'num'}),
+    dict(name='ssClip', file='data/noise.py', func='_covariance_diag', kind='assign', target='lamb',
+         nth=1, count=3, params={'lamb': _A}, ret=_A),
+    dict(name='ssScaling', file='data/noise.py', func='_covariance_diag', kind='assign', target='scaling',
+         nth=0, count=1, params={'eye': _A, 'lamb': _A, 'mask': _A}, ret=_A, opaque={_EYE: 'eye'}),
+    dict(name='ssShrink', file='data/noise.py', func='_covariance_diag', kind='assign', target='s_shrink',
+         nth=0, count=1, params={'s': _A, 'scaling': _A}, ret=_A),
+]
